@@ -5,7 +5,7 @@ cd "$(dirname "$0")"
 export CARGO_NET_OFFLINE=true
 mkdir -p target evidence replays
 # C20 smoke crate: lock file + warm one worker directory, then clone it for the other workers
-[ -f smoke/Cargo.lock ] || cp /repo/Cargo.lock smoke/Cargo.lock
+[ -f smoke/Cargo.lock ] || cp /repo/Cargo.lock smoke/Cargo.lock 2>/dev/null || cp harness/Cargo.lock smoke/Cargo.lock
 if [ ! -d target/c20/w0 ]; then
   CARGO_TARGET_DIR=target/c20/w0 cargo build --offline -q --manifest-path smoke/Cargo.toml --no-default-features \
      --features v1_local,v2_local,v3_local,v4_local,v1_public,v2_public,v3_public,v4_public,batteries_included 2>/dev/null || true
